@@ -1,5 +1,7 @@
 import Gengo.Model.Predicates
 import Gengo.Generated.Facts
+import Gengo.Lemmas.WalkObj
+import Gengo.Driver.Universe
 /-! # C20 – type predicates are sound with respect to Go semantics -/
 namespace Gengo.C20
 open Gengo Gengo.Universe Gengo.Predicates
@@ -73,5 +75,81 @@ theorem scalars_are_builtin_v2 :
     ["bool", "string", "int", "int8", "int16", "int32", "int64", "uint", "uint8", "uint16", "uint32", "uint64", "uintptr",
      "byte", "rune", "float32", "float64", "complex64", "complex128"].all
       (fun s => Generated.builtinsV2.any (fun e => e.1 = s && e.2.2.2 = "Builtin")) = true := by decide
+
+
+/-! ### from objects to Go types (full model: Lemmas/WalkDesc.lean, WalkObj.lean)
+
+`isAssignable_sound` says that an assignable object consists of objects of kind Builtin, Alias-over-Builtin and Struct
+at every depth.  In a universe built by the loaders these kinds mean what they say about the Go program: -/
+open Gengo.WalkDesc Gengo.WalkObj Gengo.WalkInv Gengo.Loader
+
+/-- **struct_object_is_go_struct**: an object of kind Struct that was filled from a node was filled from a struct node,
+and its members are that node's fields, one for one -/
+theorem struct_object_is_go_struct {bt : List Builtin} {F : Facts} {v2 : Bool} {u : U} (h : Full bt F v2 u) (o : Nat) (ob : Obj) (g : Nat)
+    (hob : u.objs[o]? = some ob) (hs : ob.src = some g) (hk : ob.kind = .struct) :
+    ∃ fs, F.node g = .struct fs ∧ All2 (MemberMatch F v2 u) ob.members fs := by
+  have hd := described h o ob g hob hs
+  unfold Desc at hd
+  cases hn : F.node g <;> simp only [hn] at hd <;> first
+    | exact ⟨_, rfl, hd.2⟩
+    | (have := hd.1; rw [hk] at this; cases this)
+    | (rw [hk] at hd; cases hd)
+    | exact hd.elim
+
+/-- **alias_object_is_defined_type**: an object of kind Alias was filled from a defined type's node, and its underlying
+type is the object standing for that node's underlying type -/
+theorem alias_object_is_defined_type {bt : List Builtin} {F : Facts} {v2 : Bool} {u : U} (h : Full bt F v2 u) (o : Nat) (ob : Obj) (g : Nat)
+    (hob : u.objs[o]? = some ob) (hs : ob.src = some g) (hk : ob.kind = .alias) :
+    ∃ und ms tps ou, F.node g = .named und ms tps ou ∧ ElemIs F v2 u ob.under und := by
+  have hd := described h o ob g hob hs
+  unfold Desc at hd
+  cases hn : F.node g <;> simp only [hn] at hd <;> first
+    | exact ⟨_, _, _, _, rfl, hd.2⟩
+    | (have := hd.1; rw [hk] at this; cases this)
+    | (rw [hk] at hd; cases hd)
+    | exact hd.elim
+
+/-- **builtin_object_is_table_entry**: an object of kind Builtin was never filled from a node: it is an object of the
+builtins table, named after an entry of kind Builtin -/
+theorem builtin_object_is_table_entry {bt : List Builtin} {F : Facts} {v2 : Bool} {u : U} (h : Full bt F v2 u) (hj : AllJ (NoSrcOK bt) u)
+    (o : Nat) (ob : Obj) (hob : u.objs[o]? = some ob) (hk : ob.kind = .builtin) :
+    ob.src = none ∧ ∃ b ∈ bt, b.kind = .builtin ∧ ob.name = ⟨[], b.name⟩ := by
+  have hsrc : ob.src = none := by
+    cases hs : ob.src with
+    | none => rfl
+    | some g =>
+      have hd := described h o ob g hob hs
+      unfold Desc at hd
+      cases hn : F.node g <;> simp only [hn] at hd <;> first
+        | (have := hd.1; rw [hk] at this; cases this)
+        | (rw [hk] at hd; cases hd)
+        | exact hd.elim
+  refine ⟨hsrc, ?_⟩
+  rcases hj o ob hob hsrc with h1 | h1 | ⟨b, hb, hbk, hbn⟩
+  · rw [hk] at h1; cases h1
+  · rw [hk] at h1; cases h1
+  · exact ⟨b, hb, by rw [hbk, hk], hbn⟩
+
+/-- (regenerated fact) the entries of kind Builtin of the tables the loaders run with are named after Go scalars -/
+theorem table_builtins_are_scalars_v1 :
+    (Gengo.Driver.Universe.builtinsOf Generated.builtinsV1).all (fun b => b.kind != .builtin || (scalars.map String.toList).contains b.name) = true := by decide
+theorem table_builtins_are_scalars_v2 :
+    (Gengo.Driver.Universe.builtinsOf Generated.builtinsV2).all (fun b => b.kind != .builtin || (scalars.map String.toList).contains b.name) = true := by decide
+
+/-- **assignable_means_scalars_and_structs** (v2 loader; the v1 statement is the same with `findTypesV1`/`addDirsV1`): in a
+universe built by any sequence of loads, an object reported assignable is – at every depth (`isAssignable_sound`) – made
+of table scalars, defined types and structs, and these objects are what the kinds say: a Builtin object is a table
+scalar, a Struct object that was filled from a node was filled from a Go struct node with exactly its fields -/
+theorem assignable_means_scalars_and_structs (w : World) (hwf : WellFormed w.facts w.v2) (hbt : WalkName.BtKinds w.bt)
+    (req : List Str) (ms : List (List Str)) (a st : LState) (h1 : newUniverseV2 w req = some a) (h2 : WalkIso.loadsV2 w a ms = some st)
+    (fuel o : Nat) (h : isAssignable st.u fuel o = true) :
+    ValueOnly st.u o ∧
+    (∀ (x : Nat) (ob : Obj), st.u.objs[x]? = some ob → ob.kind = .builtin → ob.src = none ∧ ∃ b ∈ w.bt, b.kind = .builtin ∧ ob.name = ⟨[], b.name⟩) ∧
+    (∀ (x : Nat) (ob : Obj) (g : Nat), st.u.objs[x]? = some ob → ob.src = some g → ob.kind = .struct →
+      ∃ fs, w.facts.node g = .struct fs ∧ All2 (MemberMatch w.facts w.v2 st.u) ob.members fs) := by
+  have hf := WalkIso.loadsV2_faithful w hwf hbt req ms a st h1 h2
+  have hj := loadsV2_noSrc w req ms a st h1 h2
+  exact ⟨isAssignable_sound st.u fuel o h, fun x ob hob hk => builtin_object_is_table_entry hf.1 hj x ob hob hk,
+    fun x ob g hob hs hk => struct_object_is_go_struct hf.1 x ob g hob hs hk⟩
 
 end Gengo.C20
